@@ -128,7 +128,9 @@ example (s : SchemaD) (fx : Fixes) (d : Doc) (r : Rule) (hr : r ∈ ProvedVr) :
   alpha_variables_all22_partial suffixVr suffix_inj s fx d r hr
 
 /-- injectivity is needed for UniqueVariableNames: `query($a: Int, $b: Int)` with both variables renamed to `$c` -/
-example : ((⟨fun _ => "c"⟩ : Vr).doc ⟨[.op "query" none [⟨"a", .named "Int", none⟩, ⟨"b", .named "Int", none⟩] [] 0 []]⟩).defs =
-    [.op "query" none [⟨"c", .named "Int", none⟩, ⟨"c", .named "Int", none⟩] [] 0 []] := rfl
+example : ((⟨fun _ => "c"⟩ : Vr).doc ⟨[.op "query" none [{ name := "a", type := .named "Int", default := none },
+      { name := "b", type := .named "Int", default := none }] [] 0 []]⟩).defs =
+    [.op "query" none [{ name := "c", type := .named "Int", default := none },
+      { name := "c", type := .named "Int", default := none }] [] 0 []] := rfl
 
 end PyGql.Props.C06
